@@ -34,7 +34,7 @@ ALL_SWITCHES = ["special-set-html5lib", "ruby-no-rb-rtc", "aaa-html5lib", "comma
                 "cell-caption-space-not-in-body-rules", "newline-drop-tied-to-in-body-space-handler",
                 "table-text-regardless-of-current-node", "table-text-not-flushed-by-doctype", "foster-target-test-by-name",
                 "reprocess-request-dropped-in-table-voodoo", "reset-mode-cell-context-in-fragment",
-                "implied-end-tags-ignore-namespace", "cdata-nul-replaced-by-tokenizer"]
+                "implied-end-tags-ignore-namespace", "cdata-nul-replaced-by-tokenizer", "pop-until-ignores-namespace"]
 
 
 LOOPS = []
